@@ -51,7 +51,10 @@ func (m MemoryCache) Get(height int64, key []byte) ([]byte, error) {
 	if m.isHeightSafeToRead(height) {
 		for i := range m.pastHeights {
 			if m.pastHeights[i].height == height {
-				return []byte(m.pastHeights[i].data[string(key)]), nil
+				if v, ok := m.pastHeights[i].data[string(key)]; ok {
+					return []byte(v), nil
+				}
+				return nil, nil
 			}
 		}
 	}
